@@ -351,6 +351,19 @@ func (m *model) plan(spec *ModSpec, name string) *plan {
 	return p
 }
 
+// leftInTables reports whether an imported table of the (failed) instance holds a reference to
+// one of the instance's own functions.
+func (in *mInst) leftInTables() bool {
+	for i := 0; i < in.v.nIT && i < len(in.tables); i++ {
+		for _, r := range in.tables[i].fn {
+			if r != nil && r.f.def == in {
+				return true
+			}
+		}
+	}
+	return false
+}
+
 // escapedToGlobal reports whether an imported funcref global of the (failed) instance holds a
 // reference to one of the instance's own functions (class of finding findDangle).
 func (in *mInst) escapedToGlobal() bool {
